@@ -34,7 +34,7 @@ func c07Expiry(e *env) {
 	fmt.Sscan(e.args["rounds"], &rounds)
 	for round := 0; round < rounds; round++ {
 		res := map[string]any{"ok": true, "round": round, "handshakes": n}
-		f, err := startFwd(fwdCfg{Name: "fwd", Localhost: "allow", MITM: true, MITMValidity: 2 * time.Second, MITMCacheSize: 1024, MITMCacheTTL: time.Hour})
+		f, err := startFwd(fwdCfg{Name: "fwd", Localhost: "allow", MITM: true, MITMValidity: 6 * time.Second, MITMCacheSize: 1024, MITMCacheTTL: time.Hour})
 		if err != nil {
 			fatal("start: %v", err)
 		}
